@@ -46,7 +46,6 @@ structure Ixn where
   act   : Act
   perms : Nat
   prec  : Nat
-  id    : Name := []
 deriving DecidableEq, Repr
 
 /-- the sort / uniqueness key of an intention -/
@@ -125,7 +124,7 @@ structure Entry where
 deriving DecidableEq, Repr
 
 /-- `ServiceIntentionsConfigEntry.ToIntention` -/
-def toIxn (e : Entry) (s : Src) : Ixn := ⟨s.peer, s.name, e.name, s.act, s.perms, s.prec, s.lid⟩
+def toIxn (e : Entry) (s : Src) : Ixn := ⟨s.peer, s.name, e.name, s.act, s.perms, s.prec⟩
 
 def Entry.toIxns (e : Entry) : List Ixn := e.sources.map (toIxn e)
 
@@ -174,7 +173,7 @@ def validate (legacy : Bool) (e : Entry) : Option Err :=
 structure Store where
   cfgMode : Bool                      -- system metadata `intention-format = config-entry`
   entries : List Entry := []          -- service-intentions config entries, at most one per name
-  rows    : List Ixn := []            -- legacy `connect-intentions` table, `id` is the primary key
+  rows    : List (Name × Ixn) := []   -- legacy `connect-intentions` table: (ID, row), ID is the primary key
 deriving Repr
 
 def putEntry (es : List Entry) (e : Entry) : List Entry :=
@@ -245,20 +244,20 @@ def mutLegacyCreate (st : Store) (dst : Name) (v : Src) : Store × Option Err :=
     | none => ({ st with entries := putEntry st.entries e' }, none)
 
 /-- `LegacyIntentionSet` (legacy table) -/
-def legacySet (st : Store) (r : Ixn) : Store × Option Err :=
+def legacySet (st : Store) (id : Name) (r : Ixn) : Store × Option Err :=
   if st.cfgMode then (st, some .legacyDisabled)
-  else if r.id = [] then (st, some .missingId)
+  else if id = [] then (st, some .missingId)
   else
     let r' := { r with prec := precOf r.src r.dst }
-    if st.rows.any (fun x => x.src = r.src && x.dst = r.dst && x.id ≠ r.id) then (st, some .dupLegacy)
-    else if st.rows.any (·.id = r.id) then
-      ({ st with rows := st.rows.map fun x => if x.id = r.id then r' else x }, none)
-    else ({ st with rows := st.rows ++ [r'] }, none)
+    if st.rows.any (fun x => x.2.src = r.src && x.2.dst = r.dst && x.1 ≠ id) then (st, some .dupLegacy)
+    else if st.rows.any (·.1 = id) then
+      ({ st with rows := st.rows.map fun x => if x.1 = id then (id, r') else x }, none)
+    else ({ st with rows := st.rows ++ [(id, r')] }, none)
 
 /-- `LegacyIntentionDelete` -/
 def legacyDelete (st : Store) (id : Name) : Store × Option Err :=
   if st.cfgMode then (st, some .legacyDisabled)
-  else ({ st with rows := st.rows.filter (·.id ≠ id) }, none)
+  else ({ st with rows := st.rows.filter (·.1 ≠ id) }, none)
 
 /-! ### reads -/
 
@@ -294,11 +293,11 @@ def matchList (st : Store) (side : Side) (n : Name) : List Ixn :=
     match side with
     | .source => sortIxns (sourceRaw st.entries n)
     | .destination => sortIxns (destRaw st.entries n)
-  else sortIxns (legacyRaw st.rows side n)
+  else sortIxns (legacyRaw (st.rows.map (·.2)) side n)
 
 /-- every stored intention, unsorted -/
 def flatten (st : Store) : List Ixn :=
-  if st.cfgMode then st.entries.flatMap Entry.toIxns else st.rows
+  if st.cfgMode then st.entries.flatMap Entry.toIxns else st.rows.map (·.2)
 
 /-- `Store.Intentions` -/
 def listAll (st : Store) : List Ixn := sortIxns (flatten st)
